@@ -54,3 +54,43 @@ package report
 //@     invariant forall x int :: 0 <= x && x < len(s.Sources) ==> placescap(s, x)
 //@     invariant forall x int, k int :: 0 <= x && x < len(s.Sources) && 0 <= k && k < len(s.Sources[x].Places) && s.Sources[x].Places[k].Stack == i ==> has(seenSrcs, x)
 //@     invariant disjointplaces(s)
+
+// ---- C04: report total ----
+
+//@ spec func vabs(v int64) int64 = ite(v < 0, -v, v)
+// sabs/sdiv: sums over the first k samples; dabs/ddiv: restricted to diff-base samples.
+//@ spec func sabs(prof *profile.Profile, value func([]int64) int64, k int) int64 =
+//@     ite(k <= 0, 0, sabs(prof, value, k - 1) + vabs(value(prof.Sample[k-1].Value))) decreases k
+//@ spec func sdiv(prof *profile.Profile, meanDiv func([]int64) int64, k int) int64 =
+//@     ite(k <= 0, 0, sdiv(prof, meanDiv, k - 1) + ite(meanDiv != nil, meanDiv(prof.Sample[k-1].Value), 0)) decreases k
+//@ spec func dabs(prof *profile.Profile, value func([]int64) int64, k int) int64 =
+//@     ite(k <= 0, 0, dabs(prof, value, k - 1) + ite(haslabel(prof.Sample[k-1], "pprof::base", "true"), vabs(value(prof.Sample[k-1].Value)), 0)) decreases k
+//@ spec func ddiv(prof *profile.Profile, meanDiv func([]int64) int64, k int) int64 =
+//@     ite(k <= 0, 0, ddiv(prof, meanDiv, k - 1) + ite(haslabel(prof.Sample[k-1], "pprof::base", "true") && meanDiv != nil, meanDiv(prof.Sample[k-1].Value), 0)) decreases k
+
+// total = sum of absolute sample values (restricted to the diff base when that sum is positive),
+// divided by the matching divisor sum when it is non-zero.
+//@ func computeTotal arith bv divabs=yes
+//@   requires prof != nil && forall i int :: 0 <= i && i < len(prof.Sample) ==> prof.Sample[i] != nil
+//@   ensures diff_mean: dabs(prof, value, len(prof.Sample)) > 0 && ddiv(prof, meanDiv, len(prof.Sample)) != 0
+//@       ==> result == dabs(prof, value, len(prof.Sample)) / ddiv(prof, meanDiv, len(prof.Sample))
+//@   ensures diff: dabs(prof, value, len(prof.Sample)) > 0 && ddiv(prof, meanDiv, len(prof.Sample)) == 0 ==> result == dabs(prof, value, len(prof.Sample))
+//@   ensures all_mean: dabs(prof, value, len(prof.Sample)) <= 0 && sdiv(prof, meanDiv, len(prof.Sample)) != 0
+//@       ==> result == sabs(prof, value, len(prof.Sample)) / sdiv(prof, meanDiv, len(prof.Sample))
+//@   ensures all: dabs(prof, value, len(prof.Sample)) <= 0 && sdiv(prof, meanDiv, len(prof.Sample)) == 0 ==> result == sabs(prof, value, len(prof.Sample))
+//@   loop 1
+//@     invariant 0 <= $i && $i <= len(prof.Sample)
+//@     invariant total == sabs(prof, value, $i)
+//@     invariant div == sdiv(prof, meanDiv, $i)
+//@     invariant diffTotal == dabs(prof, value, $i)
+//@     invariant diffDiv == ddiv(prof, meanDiv, $i)
+
+//@ spec func sumflatvalue(g *graph.Graph, k int) int64 =
+//@     ite(k <= 0, 0, sumflatvalue(g, k - 1) + ite(g.Nodes[k-1].FlatDiv == 0, g.Nodes[k-1].Flat, g.Nodes[k-1].Flat / g.Nodes[k-1].FlatDiv)) decreases k
+// graphTotal is the sum of the flat values shown (the "accounting for" figure).
+//@ func graphTotal arith bv
+//@   requires g != nil && forall i int :: 0 <= i && i < len(g.Nodes) ==> g.Nodes[i] != nil
+//@   ensures result == sumflatvalue(g, len(g.Nodes))
+//@   loop 1
+//@     invariant 0 <= $i && $i <= len(g.Nodes)
+//@     invariant total == sumflatvalue(g, $i)
